@@ -225,3 +225,7 @@ for _f, _id in ((wmc_scope, "C20.WMC-scope"), (guard_lookup, "C20.GUARD-lookup")
     _f.rule_id = _id
 
 RULES = [wmc_scope, guard_lookup, tyg_weak]
+
+# control signature of the bookkeeping effects this property depends on (rules/ctrlsig.py)
+from .ctrlsig import make_rule as _ctrl_rule  # noqa: E402
+RULES.append(_ctrl_rule("C20"))
